@@ -768,6 +768,7 @@ class PArpeggiator(PStochasticPattern):
 
     def reset(self):
         super().reset()
+        self.pos = 0
         self.restart()
 
     def __next__(self):
